@@ -466,6 +466,13 @@ class FnExec:
                 self.at_exit(st1, sig)
         except Unsupported as e:
             self.unsupported.append(str(e))
+        except (TypeError, KeyError, IndexError, AttributeError, ValueError, z3.Z3Exception) as e:
+            # the symbolic executor met a value / construct it has no representation for (e.g. an unmodelled library
+            # constant): the function is outside the subset on this tree - UNDECIDED, never a crash of the check and never
+            # a verdict.  The message keeps the Python error so that a genuine engine bug stays visible in the evidence.
+            import traceback as _tb
+            where = _tb.extract_tb(e.__traceback__)[-1]
+            self.unsupported.append(f"engine has no model here ({type(e).__name__}: {str(e)[:120]} at {where.filename.split('/')[-1]}:{where.lineno})")
         return self
 
     def vacuity_probe(self, st, group):
@@ -1829,8 +1836,22 @@ class FnExec:
             return
         if seq.kind == "cdict":
             # constant dict lookup; a missing key would be KeyError -> safety obligation
+            ck = concrete_str(idx.t) if idx.kind == "str" else None
+            if ck is not None and all(k.kind == "str" and concrete_str(k.t) is not None for k, _ in seq.t):
+                for k, v in seq.t:
+                    if concrete_str(k.t) == ck:
+                        yield st, v
+                        return
             hit = z3.Or(*[self.equal(idx, k, st) for k, _ in seq.t])
             self.oblige(st, f"key-present@{self.cur_line}", hit, "safety")
+            if any(v.kind in ("func", "tuple", "cdict", "ref", "rec") for _, v in seq.t):
+                # values without a common sort: one path per key
+                for k, v in seq.t:
+                    s2 = st.clone()
+                    s2.assume(self.equal(idx, k, st))
+                    if self.feasible(s2):
+                        yield s2, v
+                return
             r = seq.t[-1][1]
             for k, v in reversed(seq.t[:-1]):
                 r = self.ite(self.equal(idx, k, st), v, r)
